@@ -258,6 +258,9 @@ pub struct World {
     pub code_hash: Byte32,
     pub wcode_dep: CellDep,
     pub wcode_hash: Byte32,
+    /// the genesis cell that serves as NervosDAO code (always_success) and the DAO type hash
+    pub dao_dep: CellDep,
+    pub dao_type_hash: Byte32,
     /// all transactions ever generated (pool of candidates to propose/commit on any branch)
     pub txs: Vec<MTx>,
     pub tx_by_id: BTreeMap<ProposalShortId, usize>,
@@ -319,6 +322,11 @@ impl World {
             .code_hash(code_hash.clone())
             .hash_type(ScriptHashType::Data)
             .build();
+        let dao_code_type = Script::new_builder()
+            .code_hash(code_hash.clone())
+            .hash_type(ScriptHashType::Data)
+            .args(Bytes::from(vec![0xda, 0x00]))
+            .build();
         // tx0: the genesis "cellbase": code cell + a plain cell; its witness names the genesis miner lock
         let code_cell = CellOutput::new_builder()
             .capacity(Capacity::shannons((bin.len() as u64 + 8 + 33 + 100) * SHANNONS))
@@ -335,6 +343,17 @@ impl World {
                     .build(),
             )
             .output_data(Bytes::new())
+            // output 2 (OUTPUT_INDEX_DAO): the cell whose type script hash the consensus takes as the
+            // NervosDAO type hash; its data is always_success, so the "DAO script" never objects and
+            // only the node's own DAO accounting (maximum withdraw, fees, S) is exercised
+            .output(
+                CellOutput::new_builder()
+                    .capacity(Capacity::shannons((bin.len() as u64 + 8 + 33 + 35 + 100) * SHANNONS))
+                    .lock(lock0.clone())
+                    .type_(Some(dao_code_type.clone()).pack())
+                    .build(),
+            )
+            .output_data(bin.clone())
             .output(
                 CellOutput::new_builder()
                     .capacity(Capacity::shannons((exec_caller_from_witness_bin().len() as u64 + 8 + 33 + 100) * SHANNONS))
@@ -486,8 +505,13 @@ impl World {
             .out_point(OutPoint::new(tx0.hash(), 0))
             .dep_type(DepType::Code)
             .build();
-        let wcode_dep = CellDep::new_builder()
+        let dao_dep = CellDep::new_builder()
             .out_point(OutPoint::new(tx0.hash(), 2))
+            .dep_type(DepType::Code)
+            .build();
+        let dao_type_hash = dao_code_type.calc_script_hash();
+        let wcode_dep = CellDep::new_builder()
+            .out_point(OutPoint::new(tx0.hash(), 3))
             .dep_type(DepType::Code)
             .build();
         let g = MBlock {
@@ -514,6 +538,8 @@ impl World {
             code_hash,
             wcode_dep,
             wcode_hash,
+            dao_dep,
+            dao_type_hash,
             txs: Vec::new(),
             tx_by_id: BTreeMap::new(),
         }
@@ -710,6 +736,55 @@ impl World {
         out
     }
 
+    pub fn dao_type(&self) -> Script {
+        Script::new_builder().code_hash(self.dao_type_hash.clone()).hash_type(ScriptHashType::Type).build()
+    }
+
+    pub fn is_dao_cell(&self, c: &MCell) -> bool {
+        c.output.type_().to_opt().map(|t| t.code_hash() == self.dao_type_hash && Into::<u8>::into(t.hash_type()) == Into::<u8>::into(ScriptHashType::Type)).unwrap_or(false)
+    }
+
+    /// deposit block number recorded in a withdrawing (phase 1) DAO cell, None for anything else
+    pub fn dao_withdrawing_since(&self, c: &MCell) -> Option<u64> {
+        if !self.is_dao_cell(c) || c.data.len() != 8 {
+            return None;
+        }
+        let n = u64::from_le_bytes(c.data.as_ref().try_into().unwrap());
+        if n > 0 { Some(n) } else { None }
+    }
+
+    /// RFC 0023: what a withdrawing cell may claim: (capacity - occupied) * AR(withdrawing block) / AR(deposit block) + occupied
+    pub fn dao_max_withdraw(&self, c: &MCell, deposit_header: &HeaderView, withdrawing_header: &HeaderView) -> u64 {
+        let ar_d = Dao::unpack(&deposit_header.dao()).ar;
+        let ar_w = Dao::unpack(&withdrawing_header.dao()).ar;
+        let occ = c.occupied();
+        let counted = c.capacity() - occ;
+        (counted as u128 * ar_w as u128 / ar_d as u128) as u64 + occ
+    }
+
+    /// interest paid out by `tx` when committed against `cells` (0 for anything but a phase-2 withdrawal)
+    pub fn dao_interest(&self, tx: &TransactionView, cells: &BTreeMap<OutPoint, MCell>) -> u64 {
+        let mut total = 0u64;
+        for (i, inp) in tx.inputs().into_iter().enumerate() {
+            let Some(c) = cells.get(&inp.previous_output()) else { continue };
+            if self.dao_withdrawing_since(c).is_none() {
+                continue;
+            }
+            let Some(w) = tx.witnesses().get(i) else { continue };
+            let Ok(wa) = packed::WitnessArgs::from_slice(&w.raw_data()) else { continue };
+            let Some(idx) = wa.input_type().to_opt().map(|b| b.raw_data()) else { continue };
+            if idx.len() != 8 {
+                continue;
+            }
+            let k = u64::from_le_bytes(idx.as_ref().try_into().unwrap()) as usize;
+            let Some(dh) = tx.header_deps().get(k) else { continue };
+            let (Some(di), Some(wi)) = (self.by_hash.get(&dh), self.by_hash.get(&c.block_hash)) else { continue };
+            let w = self.dao_max_withdraw(c, &self.blocks[*di].view.header(), &self.blocks[*wi].view.header());
+            total += w - c.capacity();
+        }
+        total
+    }
+
     pub fn add_tx(&mut self, tx: TransactionView, fee: u64) -> usize {
         let id = tx.proposal_short_id();
         if let Some(i) = self.tx_by_id.get(&id) {
@@ -828,6 +903,75 @@ impl World {
                 tb = tb.witness(Bytes::from(rng.bytes(wl)).pack());
             }
             self.add_tx(tb.build(), fee);
+        }
+
+        // --- NervosDAO traffic against the parent state: deposits, phase-1 and phase-2 withdrawals
+        if recipe.new_txs > 0 && number >= 2 {
+            let plain: Vec<(OutPoint, MCell)> = pst
+                .cells
+                .iter()
+                .filter(|(op, c)| c.output.lock().code_hash() == self.code_hash && c.output.type_().is_none() && op.tx_hash() != self.blocks[0].view.transactions()[0].hash() && c.capacity() >= 500 * SHANNONS)
+                .map(|(o, c)| (o.clone(), c.clone()))
+                .collect();
+            let deposits: Vec<(OutPoint, MCell)> = pst.cells.iter().filter(|(_, c)| self.is_dao_cell(c) && self.dao_withdrawing_since(c).is_none() && c.block_number > 0 && c.data.len() == 8).map(|(o, c)| (o.clone(), c.clone())).collect();
+            let withdrawing: Vec<(OutPoint, MCell)> = pst.cells.iter().filter(|(_, c)| self.dao_withdrawing_since(c).is_some() && c.block_number > 0).map(|(o, c)| (o.clone(), c.clone())).collect();
+            let dao_type = self.dao_type();
+            let fee = 1_000 + rng.range(0, 2_000);
+            match rng.below(6) {
+                0 | 1 if !plain.is_empty() => {
+                    // deposit
+                    let (op, c) = &plain[rng.idx(plain.len())];
+                    let out = CellOutput::new_builder().lock(c.output.lock()).type_(Some(dao_type.clone()).pack()).capacity(Capacity::shannons(c.capacity() - fee)).build();
+                    if c.capacity() - fee >= occupied(&out, 8) + 100 * SHANNONS {
+                        let tx = TransactionBuilder::default()
+                            .cell_dep(self.code_dep.clone())
+                            .cell_dep(self.dao_dep.clone())
+                            .input(CellInput::new(op.clone(), 0))
+                            .output(out)
+                            .output_data(Bytes::from(vec![0u8; 8]))
+                            .build();
+                        self.add_tx(tx, fee);
+                    }
+                }
+                2 | 3 if !deposits.is_empty() => {
+                    // phase 1: the deposit cell becomes a withdrawing cell that records the deposit block number
+                    let (op, c) = &deposits[rng.idx(deposits.len())];
+                    if c.capacity() - fee >= c.occupied() + 50 * SHANNONS {
+                        let out = c.output.clone().as_builder().capacity(Capacity::shannons(c.capacity() - fee)).build();
+                        let tx = TransactionBuilder::default()
+                            .cell_dep(self.code_dep.clone())
+                            .cell_dep(self.dao_dep.clone())
+                            .header_dep(c.block_hash.clone())
+                            .input(CellInput::new(op.clone(), 0))
+                            .output(out)
+                            .output_data(Bytes::from(c.block_number.to_le_bytes().to_vec()))
+                            .build();
+                        self.add_tx(tx, fee);
+                    }
+                }
+                4 | 5 if !withdrawing.is_empty() => {
+                    // phase 2: claim the deposit plus interest
+                    let (op, c) = &withdrawing[rng.idx(withdrawing.len())];
+                    let dn = self.dao_withdrawing_since(c).unwrap() as usize;
+                    if let (Some(di), Some(wi)) = (pst.chain.get(dn).cloned(), self.by_hash.get(&c.block_hash).cloned()) {
+                        let w = self.dao_max_withdraw(c, &self.blocks[di].view.header(), &self.blocks[wi].view.header());
+                        let out = CellOutput::new_builder().lock(c.output.lock()).capacity(Capacity::shannons(w - fee)).build();
+                        let wa = packed::WitnessArgs::new_builder().input_type(Some(Bytes::from(0u64.to_le_bytes().to_vec())).pack()).build();
+                        let tx = TransactionBuilder::default()
+                            .cell_dep(self.code_dep.clone())
+                            .cell_dep(self.dao_dep.clone())
+                            .header_dep(self.blocks[di].view.hash())
+                            .header_dep(c.block_hash.clone())
+                            .input(CellInput::new(op.clone(), 0))
+                            .output(out)
+                            .output_data(Bytes::new())
+                            .witness(wa.as_bytes().pack())
+                            .build();
+                        self.add_tx(tx, fee);
+                    }
+                }
+                _ => {}
+            }
         }
 
         // --- uncles
@@ -1042,8 +1186,10 @@ impl World {
             std::iter::once(cellbase.clone()).chain(committed.iter().map(|t| t.tx.clone())).collect();
         // sequential replay inside the block: a transaction may spend an output created earlier in
         // the same block (the creating block's hash is filled in once the header exists)
+        let mut interests = 0u64;
         for (ti, tx) in all_txs.iter().enumerate() {
             if ti > 0 {
+                interests += self.dao_interest(tx, &cells);
                 for i in tx.inputs().into_iter() {
                     if let Some(c) = cells.remove(&i.previous_output()) {
                         freed += c.occupied();
@@ -1065,7 +1211,7 @@ impl World {
         let dao = Dao {
             c: pd.c + g,
             u: (pd.u + added).saturating_sub(freed),
-            s: pd.s + (g2 - miner_issuance), // no DAO withdrawals in generated histories
+            s: (pd.s + (g2 - miner_issuance)).saturating_sub(interests),
             ar: pd.ar + (pd.ar as u128 * g2 as u128 / pd.c as u128) as u64,
         };
 
